@@ -142,6 +142,8 @@ def analyse(src):
             r.update(status='unsupported', reason='parse: %s' % e)
         except tr_lex.MacroError as e:
             r.update(status='unsupported', reason='macro: %s' % e)
+        except (IndexError, KeyError, TypeError, ValueError, AttributeError, RecursionError) as e:
+            r.update(status='unsupported', reason='translator could not handle the body (%s: %s)' % (type(e).__name__, e))
     for r in results.values():
         if r['status'] == 'ok': r['helpers'] = helpers_of(sy, r)
     # theorem names must be unique
@@ -327,6 +329,21 @@ def forbidden_tokens():
 # ------------------------------------------------------------------------------------------------ commands
 def cmd_check(args):
     t0 = time.time()
+    try:
+        return cmd_check_inner(args, t0)
+    except Exception as e:     # the caller wants ONE JSON object and exit status 0 whatever happens
+        import traceback
+        expected = []
+        if os.path.exists(EXPECTED_JSON):
+            with open(EXPECTED_JSON) as fh: expected = json.load(fh)['functions']
+        print(json.dumps({'tied': [], 'new': [], 'wall_s': round(time.time() - t0, 1),
+                          'error': '%s: %s' % (type(e).__name__, e), 'traceback': traceback.format_exc()[-1500:],
+                          'broken': [{'fn': ex['fn'], 'key': ex['key'], 'file': ex['file'], 'theorem': ex['theorem'],
+                                      'reason': 'equation no longer checks', 'detail': 'translate.py failed before the check: %s' % e}
+                                     for ex in expected]}))
+        return 0
+
+def cmd_check_inner(args, t0):
     results, crate, sy = analyse(args.src)
     names, failed, bad_ax, raw = check_generated(results, sy)
     # final library build of the (now clean) generated file
